@@ -207,10 +207,11 @@ func (s *Sim) restoredCheck() {
 				payload string
 				rel     bool
 				pid     uint16
+				relaxed bool // want: held back by Receive Maximum and released since (see the recorded deferred-release defect)
 			}
 			var wantIF, gotIF []ifr
 			for _, o := range t.Out {
-				wantIF = append(wantIF, ifr{o.M.ID, o.Pubrec, o.PID})
+				wantIF = append(wantIF, ifr{o.M.ID, o.Pubrec, o.PID, t.Taint["deferred"] && o.Sent})
 			}
 			for _, pk := range cl.VerifInflight() {
 				if pk.FixedHeader.Type == packets.Pubrec {
@@ -230,26 +231,43 @@ func (s *Sim) restoredCheck() {
 						continue // PUBREL of an untracked (empty payload) QoS 2 delivery
 					}
 				}
-				gotIF = append(gotIF, ifr{msgIDOf(pk.Payload), pk.FixedHeader.Type == packets.Pubrel, pk.PacketID})
+				gotIF = append(gotIF, ifr{msgIDOf(pk.Payload), pk.FixedHeader.Type == packets.Pubrel, pk.PacketID, false})
 			}
-			ok := len(wantIF) == len(gotIF)
-			used := make([]bool, len(gotIF))
-			for _, w := range wantIF {
-				found := false
-				for gi, g := range gotIF {
-					if used[gi] || g.rel != w.rel || (!w.rel && g.payload != w.payload) || (w.pid != 0 && g.pid != w.pid) {
-						continue
+			match := func(relax bool) bool {
+				ok := true
+				used := make([]bool, len(gotIF))
+				for _, w := range wantIF {
+					found := false
+					for gi, g := range gotIF {
+						if used[gi] {
+							continue
+						}
+						if relax && w.relaxed {
+							// the store may still hold the PUBLISH record although the exchange has moved on
+							if g.payload != w.payload && !(g.rel && w.rel && g.pid == w.pid) {
+								continue
+							}
+						} else if g.rel != w.rel || (!w.rel && g.payload != w.payload) || (w.pid != 0 && g.pid != w.pid) {
+							continue
+						}
+						used[gi], found = true, true
+						break
 					}
-					used[gi], found = true, true
-					break
+					if !found {
+						ok = false
+					}
 				}
-				if !found {
-					ok = false
+				for gi, g := range gotIF {
+					if !used[gi] && !(relax && !g.rel && t.StaleDeferred[g.payload]) {
+						ok = false
+					}
 				}
+				return ok
 			}
-			if !ok {
+			if !match(false) {
 				t.Taint["restore_mismatch"] = true
-				m.flag("C20/inflight-differ", map[string]string{"v5": fmt.Sprint(t.Ver == 5)}, "after restart %d session %q: restored in-flight records {payload pubrel id} %v, model's unacknowledged messages %v", s.Restarts, id, gotIF, wantIF)
+				m.flag("C20/inflight-differ", map[string]string{"v5": fmt.Sprint(t.Ver == 5), "only_released_deferred_records_differ": fmt.Sprint(match(true))},
+					"after restart %d session %q: restored in-flight records {payload pubrel id} %v, model's unacknowledged messages {payload pubrel id released-after-deferral} %v", s.Restarts, id, gotIF, wantIF)
 			}
 			if len(wantIF) > 0 {
 				m.count("inflight_restored_checked")
